@@ -94,7 +94,8 @@ def gen_cases(tier, seed):
     for k in range(nl):
         cases.append({"kind": "layouts", "seed": seed * 7919 + k, "Pmax": 12 if tier == "quick" else 24, "cost": 8})
     for k in range(10 if tier == "quick" else 100):
-        cases.append({"kind": "setup", "seed": seed * 6151 + k, "P": [2, 3, 4, 5, 6, 7][k % 6], "plot": bool(k % 2), "cost": 30})
+        # plot-only rank, entry point and rank count vary independently (they used to be tied: plot <=> restart <=> odd P)
+        cases.append({"kind": "setup", "seed": seed * 6151 + k, "P": [2, 3, 4, 5, 6, 7][k % 6], "plot": bool((k // 3) % 2), "restart": bool((k // 2 + seed) % 2), "cost": 30})
     return cases
 
 
@@ -274,7 +275,7 @@ def _setup_case(case, pg):
         cfile = os.path.join(tmp, "c.json")
         dr.write_constants(cfile, npts, dt=2)
 
-        restart = bool(case["seed"] % 2)      # odd seeds: the restart entry point on a folder written beforehand (serially)
+        restart = bool(case.get("restart", case["seed"] % 2))      # the restart entry point on a folder written beforehand (serially)
         folder = os.path.join(tmp, "sim")
         if restart:
             from vlib import simh5
